@@ -145,7 +145,7 @@ func cmdCheckAll(args []string) int {
 					}
 				}()
 				walkerTruncations = nil
-				registry[id](c)
+				runRegistered(id, c, false)
 				noteTruncations(c)
 			}()
 		}
@@ -171,7 +171,7 @@ func runOne(id, tier, arch string, seed int, f checkFn) (c *Check) {
 		}
 	}()
 	walkerTruncations = nil
-	f(c)
+	runRegistered(id, c, false)
 	noteTruncations(c)
 	return c
 }
